@@ -174,6 +174,112 @@ void algorithms() {
         ctx);
 }
 
+// Every public overload of the loop / reduction / scan / sort entry points at least once (rule C05/C06 "overload family
+// agreement" compares what each overload dispatches to; facts.templates reports overloads that no driver instantiates).
+void api_overloads() {
+    tbb::simple_partitioner sp;
+    tbb::auto_partitioner ap;
+    tbb::static_partitioner stp;
+    tbb::affinity_partitioner afp;
+    tbb::task_group_context ctx;
+    tbb::blocked_range<int> r(0, 100, 4);
+    auto idx = [](int) {};
+    // parallel_for, range form without partitioner + context
+    tbb::parallel_for(r, ForBody(), ctx);
+    // index forms: (first,last,step,f) and (first,last,f), each x {none, 4 partitioners} x {no context, context}
+    tbb::parallel_for(0, 100, 2, idx);
+    tbb::parallel_for(0, 100, 2, idx, sp);
+    tbb::parallel_for(0, 100, 2, idx, ap);
+    tbb::parallel_for(0, 100, 2, idx, stp);
+    tbb::parallel_for(0, 100, 2, idx, afp);
+    tbb::parallel_for(0, 100, idx);
+    tbb::parallel_for(0, 100, idx, sp);
+    tbb::parallel_for(0, 100, idx, ap);
+    tbb::parallel_for(0, 100, idx, stp);
+    tbb::parallel_for(0, 100, idx, afp);
+    tbb::parallel_for(0, 100, 2, idx, ctx);
+    tbb::parallel_for(0, 100, 2, idx, sp, ctx);
+    tbb::parallel_for(0, 100, 2, idx, ap, ctx);
+    tbb::parallel_for(0, 100, 2, idx, stp, ctx);
+    tbb::parallel_for(0, 100, 2, idx, afp, ctx);
+    tbb::parallel_for(0, 100, idx, ctx);
+    tbb::parallel_for(0, 100, idx, sp, ctx);
+    tbb::parallel_for(0, 100, idx, ap, ctx);
+    tbb::parallel_for(0, 100, idx, stp, ctx);
+    tbb::parallel_for(0, 100, idx, afp, ctx);
+
+    // parallel_reduce: body form + context only; functional form x {none, 4 partitioners} x {no context, context}
+    SumBody sb;
+    tbb::parallel_reduce(r, sb, ctx);
+    auto rb = [](const tbb::blocked_range<int>& rr, long v) -> long { return v + long(rr.size()); };
+    auto jn = [](long a, long b) -> long { return a + b; };
+    long acc = 0;
+    acc += tbb::parallel_reduce(r, 0L, rb, jn);
+    acc += tbb::parallel_reduce(r, 0L, rb, jn, sp);
+    acc += tbb::parallel_reduce(r, 0L, rb, jn, ap);
+    acc += tbb::parallel_reduce(r, 0L, rb, jn, stp);
+    acc += tbb::parallel_reduce(r, 0L, rb, jn, afp);
+    acc += tbb::parallel_reduce(r, 0L, rb, jn, ctx);
+    acc += tbb::parallel_reduce(r, 0L, rb, jn, sp, ctx);
+    acc += tbb::parallel_reduce(r, 0L, rb, jn, ap, ctx);
+    acc += tbb::parallel_reduce(r, 0L, rb, jn, stp, ctx);
+    acc += tbb::parallel_reduce(r, 0L, rb, jn, afp, ctx);
+
+    // parallel_deterministic_reduce: all 12 overloads
+    tbb::parallel_deterministic_reduce(r, sb);
+    tbb::parallel_deterministic_reduce(r, sb, sp);
+    tbb::parallel_deterministic_reduce(r, sb, stp);
+    tbb::parallel_deterministic_reduce(r, sb, ctx);
+    tbb::parallel_deterministic_reduce(r, sb, sp, ctx);
+    tbb::parallel_deterministic_reduce(r, sb, stp, ctx);
+    acc += tbb::parallel_deterministic_reduce(r, 0L, rb, jn);
+    acc += tbb::parallel_deterministic_reduce(r, 0L, rb, jn, sp);
+    acc += tbb::parallel_deterministic_reduce(r, 0L, rb, jn, stp);
+    acc += tbb::parallel_deterministic_reduce(r, 0L, rb, jn, ctx);
+    acc += tbb::parallel_deterministic_reduce(r, 0L, rb, jn, sp, ctx);
+    acc += tbb::parallel_deterministic_reduce(r, 0L, rb, jn, stp, ctx);
+
+    // parallel_scan: body form x {none, simple, auto}; functional form x {none, simple, auto}
+    ScanBody scb;
+    tbb::parallel_scan(r, scb);
+    tbb::parallel_scan(r, scb, sp);
+    tbb::parallel_scan(r, scb, ap);
+    auto scf = [](const tbb::blocked_range<int>& rr, long sum, bool) -> long { return sum + long(rr.size()); };
+    acc += tbb::parallel_scan(r, 0L, scf, jn);
+    acc += tbb::parallel_scan(r, 0L, scf, jn, sp);
+    acc += tbb::parallel_scan(r, 0L, scf, jn, ap);
+
+    // parallel_sort: iterator and range forms, with and without comparator
+    std::vector<int> v(1000);
+    tbb::parallel_sort(v.begin(), v.end());
+    tbb::parallel_sort(v.begin(), v.end(), std::greater<int>());
+    tbb::parallel_sort(v);
+    tbb::parallel_sort(v, std::greater<int>());
+
+    // parallel_for_each: iterator / range / const range, with and without context
+    const std::vector<int>& cv = v;
+    tbb::parallel_for_each(v.begin(), v.end(), [](int&) {});
+    tbb::parallel_for_each(v, [](int&) {});
+    tbb::parallel_for_each(cv, [](const int&) {});
+    tbb::parallel_for_each(v.begin(), v.end(), [](int&) {}, ctx);
+    tbb::parallel_for_each(v, [](int&) {}, ctx);
+    tbb::parallel_for_each(cv, [](const int&) {}, ctx);
+
+    // parallel_pipeline: variadic filter form
+    int n = 0;
+    tbb::parallel_pipeline(
+        4,
+        tbb::make_filter<void, int>(tbb::filter_mode::serial_in_order, [&](tbb::flow_control& fc) -> int { if (n++ > 3) fc.stop(); return n; }),
+        tbb::make_filter<int, int>(tbb::filter_mode::parallel, [](int i) -> int { return i; }),
+        tbb::make_filter<int, void>(tbb::filter_mode::serial_out_of_order, [](int) {}));
+    tbb::parallel_pipeline(
+        4,
+        tbb::make_filter<void, int>(tbb::filter_mode::serial_in_order, [&](tbb::flow_control& fc) -> int { fc.stop(); return 0; }),
+        tbb::make_filter<int, void>(tbb::filter_mode::serial_in_order, [](int) {}),
+        ctx);
+    (void)acc;
+}
+
 void groups() {
     tbb::task_group tg;
     tg.run([] {});
